@@ -49,6 +49,17 @@ Theorem C12_size_with_cursor_partial : forall nocursor ops l,
 Proof. exact client_size_with_cursor. Qed.
 Print Assumptions C12_size_with_cursor_partial.
 
+(** ... and pixelwise - **partial**: drawing the cursor (any shape, mask, hot spot, pointer position,
+    negative offsets included) leaves at every coordinate either the pixel that was there or one of
+    the pixels of the cursor image; size unchanged.  Missing: WHICH of the two, per mask bit. *)
+From VD Require Import Proofs.CursorPixelsP.
+Theorem C12_cursor_pixels_partial : forall l s c x y,
+  screen l = Some s -> cur l = Some c ->
+  exists s', screen (draw_cursor l) = Some s' /\ iw s' = iw s /\ ih s' = ih s /\
+    (get s' x y = get s x y \/ In (get s' x y) (concat (rows (c_img c)))).
+Proof. exact draw_cursor_pixels. Qed.
+Print Assumptions C12_cursor_pixels_partial.
+
 Example C12_cursor_history_nonvacuous :
   let px (r g b : Z) := [r; g; b; 0] in
   let ops := [ LUpdate 1 1 1 1 (px 10 20 30);
